@@ -27,6 +27,9 @@ func catalogue(tier string) []cfg {
 							if ch.CI && (n == 4 || (sg == 1<<10 && lin != 0)) {
 								continue
 							}
+							if !th && n == 4 && (sg == 1<<10 || !ntt || lin == 1) {
+								continue
+							}
 							r = append(r, full(cfg{proto: proto, chain: ch, ntt: ntt, n: n, lin: lin, sigma: sg}))
 						}
 					}
@@ -39,6 +42,9 @@ func catalogue(tier string) []cfg {
 			b = 4
 		}
 		for _, n := range []int{5, 6, 7, 8} {
+			if !th && (n == 6 || n == 7) {
+				continue
+			}
 			r = append(r, ld(cfg{proto: proto, chain: mp.ChainMid, ntt: true, lin: 2, sigma: 1 << 10}, n, b))
 			if th || n == 8 {
 				r = append(r, ld(cfg{proto: proto, chain: mp.ChainMixedCI, ntt: n%2 == 0, lin: 1}, n, b-1))
